@@ -273,3 +273,54 @@ package hessian
 //@   assigns @pos, @E, @declared
 //@   loop 1 invariant [C03,C09:bin-chunk-own-length] len(buf) == @declared
 //@   ensures [C14:bin-total] true
+
+//@ func UnpackPtr
+//@   pure
+//@   loop 1 invariant [C16:unpack] true
+//@   ensures [C16,C13:unpack-not-ptr] true
+
+//@ func UnpackPtrValue
+//@   pure
+//@   loop 1 invariant [C16:unpack] true
+//@   ensures [C16,C13:unpackvalue] true
+
+//@ func UnpackPtrType
+//@   pure
+//@   loop 1 invariant [C16:unpack] true
+//@   ensures [C16,C13:unpacktype] true
+
+//@ func (*Encoder).existClassDef
+//@   pure
+//@   loop 1 invariant [C02:exist-index] 0 <= i && i <= len(e.clsDefList)
+//@   ensures [C02,C05:exist-range] result1 ==> 0 <= result0 && result0 < len(e.clsDefList)
+
+//@ func (*Encoder).checkEncodeRefMap
+//@   assigns e.refMap
+//@   loop 1 invariant [C04:ref-walk] true
+//@   ensures [C04:ref-total] true
+
+//@ func (*Encoder).writeClsDef
+//@   assigns @out, @W, @E, @nwrites, e.clsDefList
+//@   loop 1 invariant [C15:W-loop] 0 <= i && i <= len(fldList)
+//@   ensures [C15:W] (@W && !old(@W)) ==> err != nil
+
+//@ func (*Encoder).writeObject
+//@   assigns @out, @W, @E, @nwrites, e.clsDefList, e.refMap
+//@   loop 1 invariant [C15,C13:flags-loop] (@W == old(@W) || false) 
+//@   ensures [C15:W] (@W && !old(@W)) ==> err != nil
+//@   ensures [C13:E] (@E && !old(@E)) ==> err != nil
+
+//@ func (*Encoder).writeList
+//@   assigns @out, @W, @E, @nwrites, e.clsDefList, e.refMap
+//@   ensures [C15:W] (@W && !old(@W)) ==> err != nil
+//@   ensures [C13:E] (@E && !old(@E)) ==> err != nil
+
+//@ func (*Encoder).writeMap
+//@   assigns @out, @W, @E, @nwrites, e.clsDefList, e.refMap
+//@   ensures [C15:W] (@W && !old(@W)) ==> err != nil
+//@   ensures [C13:E] (@E && !old(@E)) ==> err != nil
+
+//@ func (*Encoder).WriteData
+//@   assigns @out, @W, @E, @nwrites, e.clsDefList, e.refMap
+//@   ensures [C15:W] (@W && !old(@W)) ==> err != nil
+//@   ensures [C13:E] (@E && !old(@E)) ==> err != nil
